@@ -1,6 +1,6 @@
 /-
   CRC-32 (IEEE 802.3, reflected polynomial 0xEDB88320, init and final xor 0xFFFFFFFF) as a bit-serial
-  specification over `BitVec 32`.
+  specification over `BitVec 32`: the message is consumed one bit at a time, least-significant bit of each byte first.
 -/
 import Stun.Basic.Bytes
 namespace Stun.Spec
@@ -11,12 +11,19 @@ def crcPoly : BitVec 32 := 0xEDB88320#32
 def crcStep (c : BitVec 32) : BitVec 32 :=
   if c.getLsbD 0 then (c >>> 1) ^^^ crcPoly else c >>> 1
 
-def crcStep8 (c : BitVec 32) : BitVec 32 :=
-  crcStep (crcStep (crcStep (crcStep (crcStep (crcStep (crcStep (crcStep c)))))))
+/-- absorb one message bit -/
+def crcBit (c : BitVec 32) (bit : Bool) : BitVec 32 :=
+  crcStep (c ^^^ (if bit then 1#32 else 0#32))
+
+/-- the bits of a byte in the order the CRC consumes them -/
+def bitsLSB (b : UInt8) : List Bool := (List.range 8).map (fun i => b.toNat.testBit i)
+
+def bitsOf (bs : Bytes) : List Bool := bs.flatMap bitsLSB
+
+def crcBits (c : BitVec 32) (bits : List Bool) : BitVec 32 := bits.foldl crcBit c
 
 /-- absorb one byte -/
-def crcByte (c : BitVec 32) (b : UInt8) : BitVec 32 :=
-  crcStep8 (c ^^^ BitVec.ofNat 32 b.toNat)
+def crcByte (c : BitVec 32) (b : UInt8) : BitVec 32 := crcBits c (bitsLSB b)
 
 def crcUpdate (c : BitVec 32) (bs : Bytes) : BitVec 32 := bs.foldl crcByte c
 
